@@ -116,8 +116,56 @@ Definition stream_pack (e : env) (reqs : list req) : tr * result :=
   | first :: rest => stream_go e (mkTr [] []) [] (r_off first) (r_off first) (first :: rest)
   end.
 
+(* ---------- Repository.LoadBlob / loadBlob: the per-copy loop used as streamPackPart's fallback ---------- *)
+(* one index entry (copy) of a blob: pack label, offset, stored length, size of that pack file, whether the
+   stored bytes are intact, whether downloads from that pack fail *)
+Record copy := mkCopy { cp_pack : N; cp_off : Z; cp_len : Z; cp_psize : Z; cp_intact : bool; cp_dlfail : bool }.
+Inductive lres := LOk | LErr.
+
+(* loadBlob: blen/bcap = len(buf)/cap(buf); the buffer is re-sized for every copy from that copy's length *)
+Fixpoint load_go (cs : list copy) (blen bcap : Z) : lres :=
+  match cs with
+  | [] => LErr                                        (* lastError / "loading ... failed" *)
+  | c :: r =>
+      let '(blen', bcap') :=
+        if bcap <? cp_len c then (cp_len c, cp_len c)             (* buf = make([]byte, Length) *)
+        else if negb (blen =? cp_len c) then (cp_len c, bcap)     (* buf = buf[:Length] *)
+        else (blen, bcap) in
+      if cp_dlfail c || (cp_psize c <? cp_off c + blen') then load_go r blen' bcap'   (* backend.ReadAt fails *)
+      else if blen' <? cp_len c then load_go r blen' bcap'        (* iterator: ReadFull(Length) beyond the buffer *)
+      else if cp_len c <=? nonce_size then load_go r blen' bcap'  (* invalid blob length *)
+      else if cp_intact c then LOk                                (* decrypt, decompress, hash *)
+      else load_go r blen' bcap'
+  end.
+
+(* LoadBlob: index lookup (no entry: error), first pass, on error a second pass with a fresh buffer *)
+Definition load_blob (cs : list copy) (blen bcap : Z) : lres :=
+  match cs with
+  | [] => LErr
+  | _ => match load_go cs blen bcap with LOk => LOk | LErr => load_go cs 0 0 end
+  end.
+
+Definition usable (c : copy) : bool :=
+  cp_intact c && negb (cp_dlfail c) && (cp_off c + cp_len c <=? cp_psize c) && (nonce_size <? cp_len c).
+
+(* blobsInPack: for a requested handle, the first index entry that lies in the pack (then break) *)
+Fixpoint first_in_pack (pk : N) (cs : list copy) : option copy :=
+  match cs with [] => None | c :: r => if (cp_pack c =? pk)%N then Some c else first_in_pack pk r end.
+
+(* LoadBlobsFromPack(pack, [handle]) of a blob with these copies: streamPack with the real LoadBlob as fallback *)
+Definition stream_one (cs : list copy) (pk : N) : option (tr * result) :=
+  match first_in_pack pk cs with
+  | None => None                                      (* "blob not found in pack": error before streaming *)
+  | Some c =>
+      let good := map (fun x => mkReq 1 (cp_off x) (cp_len x))
+                      (filter (fun x => (cp_pack x =? pk)%N && cp_intact x) cs) in
+      let e := mkEnv good (cp_psize c) (if cp_dlfail c then [0%nat] else [])
+                     (Some (match load_blob cs 0 0 with LOk => [1%N] | LErr => [] end)) None in
+      Some (stream_pack e [mkReq 1 (cp_off c) (cp_len c)])
+  end.
+
 (* ---------- cases ---------- *)
-Record case := mkCase { c_env : env; c_reqs : list req; c_loads : list (Z * Z); c_cbs : list (N * N); c_res : result }.
+Record scase := mkCase { c_env : env; c_reqs : list req; c_loads : list (Z * Z); c_cbs : list (N * N); c_res : result }.
 
 Definition res_eqb (a b : result) : bool :=
   match a, b with ROk, ROk | RErr, RErr | RPanic, RPanic => true | _, _ => false end.
@@ -133,7 +181,7 @@ Definition no_load_failure (e : env) (reqs : list req) : bool :=
    5 plaintext delivered without error is not the blob's content, or an unavailable blob reported ok; 6 panic;
    7 no download failed, yet an intact (or fallback-loadable) blob was reported as error; 8 callbacks continued
    after the callback returned an error, or that error was swallowed *)
-Definition oracle_code (c : case) : nat :=
+Definition soracle (c : scase) : nat :=
   let sorted := sort (c_reqs c) in
   let n := length (c_cbs c) in
   match c_res c with
@@ -158,13 +206,52 @@ Definition oracle_code (c : case) : nat :=
     else 0%nat
   end.
 
-Definition check_C43 (c : case) : bool := Nat.eqb (oracle_code c) 0.
 
 Definition pair_eqb (a b : Z * Z) : bool := (fst a =? fst b) && (snd a =? snd b).
 Definition cb_eqb (a b : N * N) : bool := (fst a =? fst b)%N && (snd a =? snd b)%N.
-Definition model_agrees (c : case) : bool :=
+Definition smodel_agrees (c : scase) : bool :=
   let '(t, r) := stream_pack (c_env c) (c_reqs c) in
   list_eqb pair_eqb (t_loads t) (c_loads c) && list_eqb cb_eqb (t_cbs t) (c_cbs c) && res_eqb r (c_res c).
+
+
+Inductive case :=
+| CS (s : scase)
+  (* CL copies pk lb cbs res: a real repository holds one blob in these copies (index lookup order);
+     lb = outcome of Repository.LoadBlob (0 error, 1 correct plaintext, 2 wrong plaintext);
+     cbs/res = callback outcomes and result of Repository.LoadBlobsFromPack(pack pk, [blob]) *)
+| CL (cs : list copy) (pk : N) (lb : N) (cbs : list (N * N)) (res : result).
+
+(* oracle clauses for CL: 9 LoadBlob fails although a usable copy exists (or succeeds without one, or returns
+   wrong data); 10 LoadBlobsFromPack does not call back exactly once with the blob (or an error iff no copy
+   is usable) *)
+Definition oracle_code (c : case) : nat :=
+  match c with
+  | CS s => soracle s
+  | CL cs pk lb cbs res =>
+      let want := if existsb usable cs then 1%N else 0%N in
+      if negb (lb =? want)%N then 9%nat
+      else match first_in_pack pk cs with
+           | None => 0%nat
+           | Some _ =>
+               match cbs, res with
+               | [(i, o)], ROk => if (i =? 1)%N && (o =? want)%N then 0%nat else 10%nat
+               | _, _ => 10%nat
+               end
+           end
+  end.
+
+Definition check_C43 (c : case) : bool := Nat.eqb (oracle_code c) 0.
+
+Definition model_agrees (c : case) : bool :=
+  match c with
+  | CS s => smodel_agrees s
+  | CL cs pk lb cbs res =>
+      (lb =? (match load_blob cs 0 0 with LOk => 1 | LErr => 0 end))%N
+      && match stream_one cs pk with
+         | None => true
+         | Some (t, r) => list_eqb cb_eqb (t_cbs t) cbs && res_eqb r res
+         end
+  end.
 
 Definition check_case (c : case) : nat :=
   match oracle_code c with
